@@ -315,6 +315,12 @@ def setup():
     if bad:
         sys.exit(2)
     log("all spec modules parse")
+    try:
+        from checks.c32 import build_cli
+        build_cli()
+        log("c2patool built")
+    except ImportError:
+        pass
     sys.exit(0)
 
 
